@@ -43,11 +43,60 @@ NEEDS = {
  "C19b": "online encoder with an explicit generator, an element firing twice, default RNG state differing between runs",
  "C20a": "Poisson with rate 0 at support 0",
  "C20b": "extrap_linear_backward with a non-default adjust= function",
+ # ---- second round (variants c, d: asked for mechanisms other than those of a, b)
+ "C01c": "typed-but-empty storage (torch.empty(0, dtype=...), UninitializedBuffer(dtype=...), after deinitialize()) whose first pushed observation has another dtype",
+ "C01d": "record constructed from an nn.Parameter initial value, then an in-place write / push before any out-of-place write or align",
+ "C02c": "insert with extrap_linear_backward and a non-identity adjust= at an off-grid time, then select",
+ "C02d": "integer-typed record (int16/32/64), Python scalar time, off-grid",
+ "C03c": "GLIF1 stepped with refrac_lock=False past at least one spike",
+ "C03d": "module state in float64 and a refractory period float32 cannot represent (2.3 ms)",
+ "C04c": "DeltaPlusCurrent / SingleExponentialCurrent, spike_at outside [0, delay] with non-default overbound settings",
+ "C04d": "SingleExponentialCurrent with inplace=True, delay >= dt, a delayed read after a spike",
+ "C05c": "undelayed LinearDirect on a stored-current synapse (SingleExponentialCurrent / DeltaPlusCurrent)",
+ "C05d": "LinearLateral whose presyn_receptive is used (an STDP-type trainer on a lateral connection)",
+ "C06c": "DoubleExponentialCurrent with delays > 0 whose dt (or maximum delay) is reassigned through the setter",
+ "C06d": "DeltaPlusCurrent / SingleExponentialCurrent, non-zero interp_tol, non-representable dt, delays one ulp off the grid",
+ "C07c": "trace reducer with a negative amplitude and at least two observations",
+ "C07d": "CAReducer: clear(keepshape=True) after at least one observation, then two more",
+ "C08c": "MSTDP with delayed=True on a connection with a non-zero delay",
+ "C08d": "MSTDPET with a per-sample reward tensor, scale != 1 and a non-empty depressive partition",
+ "C09c": "KernelSTDP whose kernel hyperparameters are passed as tensors",
+ "C09d": "STDP cell registered with per-cell lr overrides whose sign mode differs from the trainer defaults",
+ "C10c": "the reduced depressing parts read between two contributions with no clear in between",
+ "C10d": "sharp bounding with a parameter element float-equal to the limit",
+ "C11c": "batch size assigned through neuron.batchsz = B after construction (grow or shrink after use)",
+ "C11d": "KernelSTDP with a sign-changing kernel, batch size > 1, weight-dependent bounds",
+ "C12c": "history length set through the setters after construction on source and target, pointers differing modulo the record size",
+ "C12d": "target cleared with clear(keepshape=True) and not stepped since, then load_state_dict",
+ "C13c": "delay set to another value needing the same number of steps, then dt changed",
+ "C13d": "non-strict constraints, a positive and a negative dim aliasing one tensor dimension, one size 0 listed first, then an edit",
+ "C14c": "a setter growing a dimension of a non-float32 history (bool spikes, float16 module)",
+ "C14d": "CumulativeTraceReducer whose dt is assigned twice with different values",
+ "C15c": "trainer eval() then train(), then a monitor dropped through garbage collection",
+ "C15d": "MSTDPET with layer steps taken under layer.eval() while the trainer stays in train mode",
+ "C16c": "an unregistered (or deregistered) hook called manually with ignore_mode=True, force=False",
+ "C16d": "a Clamping / Normalization hook whose attr path has three or more components",
+ "C17c": "Biclique with a per-neuron-group output transform given as (name, neuron, transform)",
+ "C17d": "ALIF neurons with refrac_t > 0, clear() within refrac_t ms of a spike",
+ "C18c": "DelayAdjustedKernelSTDP whose kernel hyperparameters are passed as tensors",
+ "C18d": "one trainer holding two cells of the same layer with different connections onto one neuron group",
+ "C19c": "encoder built with refrac=None, refrac assigned, then dt assigned",
+ "C19d": "PoissonIntervalEncoder online with inputs exactly 0 (last yielded slice)",
+ "C20c": "tensor cost containing inf and two trains sharing a spike time",
+ "C20d": "LogNormal with scale below about 1e-2 (float32 cancellation)",
 }
 INITIAL = {  # which checks fired when the change was first tried, before any strengthening prompted by it
  "C05b": ["C10"], "C06a": [], "C06b": [], "C07a": [], "C07b": [], "C08b": ["C07"], "C09a": [], "C09b": ["C10"], "C11a": [], "C11b": ["C08", "C09"],
  "C12b": [], "C14a": [], "C14b": [], "C15a": [], "C15b": [], "C17b": ["C04"], "C18a": ["C09"], "C20b": [],
  "C03b": ["C03", "C11"], "C18b": ["C06", "C18"], "C13a": ["C13"],
+ # second round, C01-C10: swept before anything prompted by the second round was added
+ "C01c": [], "C01d": [], "C02c": ["C20"], "C02d": [], "C03c": ["C03"], "C03d": [], "C04c": [], "C04d": ["C04"], "C05c": [], "C05d": ["C05"],
+ "C06c": ["C04"], "C06d": [], "C07c": ["C07", "C09"], "C07d": [], "C08c": ["C06"], "C08d": ["C08", "C09"], "C09c": [], "C09d": ["C08", "C09"],
+ "C10c": ["C09", "C10"], "C10d": ["C10"],
+ # second round, C11-C20: swept after the generic rules G2b / G12 / G13 / G14 and the shared clauses prompted by C01-C10 of this round
+ "C11c": ["C14"], "C11d": ["C18"], "C12c": ["C01", "C12"], "C12d": ["C12"], "C13c": ["C14"], "C13d": ["C13"], "C14c": ["C13"], "C14d": ["C07", "C14"],
+ "C15c": ["C16"], "C15d": ["C15"], "C16c": ["C15", "C16"], "C16d": ["C16"], "C17c": [], "C17d": ["C17"], "C18c": ["C09", "C18"], "C18d": ["C15"],
+ "C19c": [], "C19d": ["C19"], "C20c": ["C20"], "C20d": ["C20"],
 }
 ADDED = {  # what the seeded change led to in the machinery (empty: the target check caught it as it stood)
  "C03b": "C11 fired as well although C11 still holds (the tested flag is rebound before the branch): false alarm, truth tables now follow rebinding of a tested flag (DESIGN 11)",
@@ -71,11 +120,31 @@ ADDED = {  # what the seeded change led to in the machinery (empty: the target c
  "C18a": "C18.d: routing walker shared with C09 run on the per-cell override values",
  "C18b": "C06.d made silent (a registration-time copy still applies the delay once); only C18.a reports the stale copy",
  "C20b": "C20.a: adjust-symbolic specification (identity check of the adjust hook)",
+ "C01c": "C01.j: decision tables of push / pop / peek / incr / decr / reset / align / initialize (returned value, refusals, stores, ordered calls)",
+ "C01d": "C01.j: table of RecordTensor.__init__ (storage copied into every slot by unsqueeze + repeat)",
+ "C02c": "C02.g: the interpolation / extrapolation algebra of C20.a is shared with C02",
+ "C02d": "C02.f: sibling template of the core.tensor constructors (fullc's documented dtype rule)",
+ "C03d": "G14: an exact comparison may not pass one side through a conversion that can round",
+ "C04c": "G12: a named parameter that the body never reads (the option is silently ignored)",
+ "C05c": "G13: in-place update of a tensor the function does not own (property values, component results, parameters, views)",
+ "C06c": "C06.f: every delay record is registered so that the dt / delay setters reach it (shared with C04.e)",
+ "C06d": "generic-rule sweep (G2 swapped positional roles) in the quick tier, also over the supporting code of a property",
+ "C07d": "C07.c: every piece of state a fold method accumulates in self is reset by clear on every path",
+ "C08c": "C08.a/C06.d: monitor attribute and its read in forward agree on who applies the delay (clause shared with C06)",
+ "C09c": "G2b: a callee named after one role of an opposing pair (pre/post, pos/neg, upper/lower) receives only values of that role",
+ "C11c": "C11.f: resizing the batch resets the per-sample state unconditionally (clause shared with C14.c)",
+ "C11d": "C11.d: what happens to a batch-reduced quantity afterwards is linear (no clamp / abs / sign split after the reduction)",
+ "C13c": "C13.g: the owners' dt / delay / duration setters forward every new value (clause shared with C14.c)",
+ "C14c": "C14.f: the resize primitives (size formula, __make_compatible, resize) are shared with C13.a / C13.d",
+ "C15c": "C15.j: hook register / deregister typestate shared with C16.a",
+ "C17c": "G15: a loop variable read after its loop",
+ "C18d": "C18.e: pooled-monitor identity clauses (C15.f / C15.h) shared for the delay-adjusted and kernel trainers",
+ "C19c": "G16: both arms of a mode switch in a setter store the same fields",
 }
 os.makedirs(DST, exist_ok=True)
 rows = []
 for pid in [f"C{i:02d}" for i in range(1, 21)]:
-    for v in "ab":
+    for v in "abcd":
         src = f"{SRC}/{pid}/{v}"
         if not os.path.exists(f"{src}/patch.diff"):
             continue
